@@ -3,6 +3,7 @@ import DiscretModel.Lemmas.DailyLogLazy
 import DiscretModel.Lemmas.DailyLogWindow
 import DiscretModel.Lemmas.SyncMarks
 import DiscretModel.Lemmas.DailyLogUnrefs
+import DiscretModel.Lemmas.Date
 /-
 C09 — the daily log is a function of the stored content, nothing else.
 
@@ -481,3 +482,58 @@ theorem C09_breaks_syncDeletionLocalDayUnmarked :
   decide
 
 end Discret.Sync
+
+/-! ### the day of a date (`date_utils.rs`): the buckets of the daily log are the days `t / 86400000`
+
+`Model/Date.lean` models `date` and `date_next_day` as written, chrono's representable range included; the `dates`
+stream of the check runs them against the real functions (boundaries of the range, day boundaries, negative dates).
+The theorems below justify the abstraction `dayOf t = t / dayMs` that every other model of the daily log uses, for
+every date `t` with `InRange t` (from year −262143 to one day before the end of year 262142). -/
+namespace Discret.Date
+
+/-- **C09 (a date lies in its own day window).** `date t ≤ t < date_next_day t`, and the window is one day long. -/
+theorem C09_date_window {t : Int} (h : InRange t) :
+    date t ≤ t ∧ t < dateNextDay t ∧ dateNextDay t = date t + dayMs := by
+  rw [dateNextDay_of_inRange h]
+  refine ⟨?_, ?_, rfl⟩ <;> (rw [date_of_inRange h]; simp only [dayMs]; omega)
+
+/-- **C09 (the SQL window of a day is the day).** For a representable date `t` and ANY `u`, `u` is selected by the window
+    `date t ≤ u < date_next_day t` (daily_log.rs:221, node.rs:460,937, edge.rs:464) exactly when `u` and `t` have
+    the same day number — the `dayOf` of the models; and the mark `date t` (daily_log.rs:36) identifies that day. -/
+theorem C09_window_iff_same_day {t u : Int} (ht : InRange t) :
+    (date t ≤ u ∧ u < dateNextDay t) ↔ dayOf u = dayOf t := by
+  rw [dateNextDay_of_inRange ht, date_of_inRange ht]; simp only [dayOf, dayMs]; omega
+
+theorem C09_date_eq_iff_same_day {t u : Int} (ht : InRange t) (hu : InRange u) :
+    date t = date u ↔ dayOf t = dayOf u := by
+  rw [date_of_inRange ht, date_of_inRange hu]; simp only [dayOf, dayMs]; omega
+
+/-- **C09 (the windows partition the dates).** Two day windows are equal or disjoint: a row is counted in exactly
+    one day. -/
+theorem C09_windows_disjoint {t t' u : Int} (ht : InRange t) (ht' : InRange t')
+    (h : date t ≤ u ∧ u < dateNextDay t) (h' : date t' ≤ u ∧ u < dateNextDay t') : date t = date t' := by
+  rw [C09_window_iff_same_day ht] at h; rw [C09_window_iff_same_day ht'] at h'
+  exact (C09_date_eq_iff_same_day ht ht').2 (h.symm.trans h')
+
+/-- `date` is idempotent and monotone for EVERY input (clamped ones included): marks are stable under re-marking -/
+theorem C09_date_idem (t : Int) : date (date t) = date t := by
+  have hb := clamp_bounds t
+  have hl := floorDay_le (clamp t)
+  have hm : minMs ≤ floorDay (clamp t) := by have := floorDay_mono hb.1; rw [floorDay_min] at this; exact this
+  have hc : clamp (floorDay (clamp t)) = floorDay (clamp t) := clamp_of_bounds hm (Int.le_trans hl.1 hb.2)
+  simp only [date, hc, floorDay_floorDay]
+
+theorem C09_date_mono {t u : Int} (h : t ≤ u) : date t ≤ date u := floorDay_mono (clamp_mono h)
+
+/-- **C09_breaks_lastDay (boundary of the hypothesis `InRange`, stated so that it stays visible).** In the last
+    representable day (year 262142-12-31) and beyond, `date_next_day` falls back to `MAX_UTC` and the window
+    `[date t, date_next_day t)` is EMPTY: a row dated there is in no day of the log. No local write can carry such
+    a date (`now()`); a peer's row can. Not reached by any stream of the check except `dates`. -/
+theorem C09_breaks_lastDay : dateNextDay maxMs = date maxMs ∧ ¬ InRange maxMs ∧ ¬ (maxMs < dateNextDay maxMs) := by
+  decide
+
+-- non-vacuity: ordinary dates are in range, and so are the bounds the harness probes
+example : InRange 0 ∧ InRange 1700000000000 ∧ InRange (-1) ∧ InRange minMs ∧ InRange (maxMs - dayMs) := by decide
+example : date 1700000000123 = 1699920000000 ∧ dateNextDay 1700000000123 = 1700006400000 ∧ date (-1) = -86400000 := by decide
+
+end Discret.Date
